@@ -325,7 +325,7 @@ class BoolReads(Outcomes):
 def r7_bool_values(ctx, prog, rule_id='C01.R7'):
     """The access decision for a new object is taken on the CKA_TOKEN / CKA_PRIVATE values read from the template; the attribute layer then stores the same template values. Both must read a
     CK_BBOOL the same way for EVERY byte value (0, 1, and the non-canonical 2 / 0xff), otherwise an object is checked as public and stored as private (or checked as session, stored on the token)."""
-    r = ctx.rule(rule_id, 'policy flags and stored flags read a template CK_BBOOL the same way', floor=20, engine='E2 finite-domain evaluation + E7 sibling agreement')
+    r = ctx.rule(rule_id, 'policy flags and stored flags read a template CK_BBOOL the same way', floor=12, engine='E2 finite-domain evaluation + E7 sibling agreement')
     # what the store does with the byte: P11AttrPrivate / P11AttrToken ::updateAttr
     stored = {}
     for attr, cls in (('CKA_PRIVATE', 'P11AttrPrivate'), ('CKA_TOKEN', 'P11AttrToken')):
@@ -362,6 +362,7 @@ def r7_bool_values(ctx, prog, rule_id='C01.R7'):
             continue
         ctx.analysed(g)
         tmpl = reads[0][2]
+        seen_any = False
         for attr in ('CKA_PRIVATE', 'CKA_TOKEN'):
             seen = 0
             for v in (0, 1, 2, 255):
@@ -387,8 +388,9 @@ def r7_bool_values(ctx, prog, rule_id='C01.R7'):
                     r.undecided(g['qname'], site, 'value of %s not concrete' % und[0][0], file=g['file'], line=und[0][2])
                 else:
                     r.ok(g['qname'], site, ', '.join('%s=%s' % (x[0], x[1]) for x in sorted(got)), file=g['file'], line=sorted(got)[0][2])
+            seen_any = seen_any or bool(seen)
             if not seen:
-                r.undecided(g['qname'], attr, 'the read of the flag was not reached', file=g['file'], line=g['line'])
+                continue        # this function does not take that flag from the template for a policy decision (decided below: at least one of the two must be seen)
             # the same attribute twice: the attribute layer applies the entries in order, so the last one is what gets stored; the policy flag must be the last one too
             names = [pp['var']['name'] for pp in g['params']]
             cnt = names[names.index(tmpl) + 1] if tmpl in names and names.index(tmpl) + 1 < len(names) else None
@@ -423,6 +425,8 @@ def r7_bool_values(ctx, prog, rule_id='C01.R7'):
                                 % (x[0], 'true' if x[1] else 'false', x[2], 'true' if v1 else 'false'), file=g['file'], line=x[2])
                 else:
                     r.ok(g['qname'], site, 'last entry wins (%s)' % ', '.join(sorted('%s=%s' % (x[0], x[1]) for x in finals)), file=g['file'], line=g['line'])
+        if not seen_any:
+            r.undecided(g['qname'], 'template flags', 'no read of CKA_PRIVATE / CKA_TOKEN into a policy flag was reached', file=g['file'], line=g['line'])
 
 
 def run(ctx):
